@@ -294,16 +294,23 @@ pub fn fail_injection<S: USet>(e: &mut Eng<S>, hists: usize, steps: usize) {
                     // the op took another path (e.g. different address-dependent behaviour); nothing failed
                     continue;
                 }
-                match r {
-                    Ok(_) => e.fail("C14", format!("operation kind {} value {} returned normally although allocation #{} failed (set {})", kind, v, k, before)),
-                    Err(_) => {
+                // the panic payload is itself a heap block: release it before looking at the ledger
+                let panicked = r.is_err();
+                drop(r);
+                match panicked {
+                    false => e.fail("C14", format!("operation kind {} value {} returned normally although allocation #{} failed (set {})", kind, v, k, before)),
+                    true => {
                         e.bump("fail:panicked");
                         let ca = repr_string(&c);
                         let same_members = {
                             let a: BTreeSet<u64> = c.items().into_iter().collect();
                             a == e.oracle[0] && c.len() == e.oracle[0].len()
                         };
-                        if kind <= 7 && (ca != cb || !same_members) {
+                        if ca != cb {
+                            // allowed: e.g. the placeholder was re-chosen before the failing growth; contents must be equal
+                            e.bump("fail:representation-changed-contents-equal");
+                        }
+                        if kind <= 7 && !same_members {
                             e.fail("C14", format!("after a caught allocation failure (allocation #{} of op kind {} value {}) the set changed: before {} after {}", k, kind, v, cb, ca));
                         }
                         let (lb1, _) = alloc::live();
